@@ -149,6 +149,17 @@ def judge(ctx, form, klass, sig, sample=False):
     for el in p.body.iter():
         if isinstance(el.tag, str) and el.get("ref") and xf.local(el.tag) not in ("label", "hint", "value", "setvalue", "setgeopoint"):
             ctl.setdefault(el.get("ref"), el)
+    # "and nowhere else": actions may only target rows that have a default or a trigger; generated helper nodes stay empty
+    legit = {e.path for e in rm.entries if e.row is not None and e.row.kind == "q" and (e.row.cells.get("default") or e.row.cells.get("trigger"))}
+    legit |= {"/" + rm.root + "/meta/entity/@id"} if hasattr(rm, "root") else set()
+    for ref, els in svs.items():
+        if ref not in legit and "/meta/" not in (ref or ""):
+            ctx.viol("action:targets-a-node-without-default-or-trigger", f"{len(els)} setvalue/setgeopoint action(s) target {ref!r}, a node that has neither a default nor a trigger", wit())
+    for e in rm.entries:
+        if e.row is None and e.kind in ("tl-header", "tl-label", "count-helper", "other-helper"):
+            for nnode in p.resolve(e.path):
+                if (nnode.text or "").strip():
+                    ctx.viol("default:literal-in-generated-helper-node", f"generated node {e.path} holds the text {nnode.text!r}", wit())
     for e in rm.entries:
         r = e.row
         if r is None or r.kind != "q":
@@ -269,6 +280,23 @@ def run_shard(ctx):
                 continue
             form = trigger_form(tpos, cpos, ctype, calc_text=ct)
             judge(ctx, form, "enum-trigger", f"trigger|{tpos}|{cpos}|{ctype}|{ct}")
+    # table-list sections: the generated heading select next to a first select that carries a default or a trigger
+    for k, (sk, what) in enumerate(itertools.product(("group", "repeat"), ("static", "dynamic", "trigger", "none"))):
+        n += 1
+        if not ctx.mine(n):
+            continue
+        first = {"label": "first"}
+        if what == "static":
+            first["default"] = "a"
+        elif what == "dynamic":
+            first["default"] = "${src}"
+        elif what == "trigger":
+            first.update({"calculation": "'b'", "trigger": "${src}"})
+        f = Form()
+        f.survey = [Row("q", "text", "src", {"label": "S"}),
+                    Row(sk, f"begin {sk}", "tl", {"label": "TL", "appearance": "table-list"}, [Row("q", "select_one l1", "s1", first), Row("q", "select_one l1", "s2", {"label": "second", "default": "b"})])]
+        f.choices = {"l1": [{"name": "a", "label": "A"}, {"name": "b", "label": "B"}]}
+        judge(ctx, f, "table-list", f"table-list|{sk}|{what}")
     for i in range(pl["n_random"]):
         if not ctx.mine(i):
             continue
